@@ -113,11 +113,12 @@ func (s Stats) Merge(o Stats) {
 
 // Outcome of executing one script.
 type Outcome struct {
-	V         *Violation
-	Stats     Stats
-	Digest    string   // digest of the order-insensitive event log (determinism self-test)
-	States    []string // distinct-state digests reached
+	V          *Violation
+	Stats      Stats
+	Digest     string   // digest of the order-insensitive event log (determinism self-test)
+	States     []string // distinct-state digests reached
 	Nontrivial bool
+	Taken      []int // scheduled runs: the choices actually taken (index among enabled tasks per decision)
 }
 
 // Log accumulates an event log digest without keeping the text.
@@ -284,8 +285,8 @@ type FoundViolation struct {
 
 // WorkerResult is what a worker process writes.
 type WorkerResult struct {
-	Property    string            `json:"property"`
-	Seed        uint64            `json:"seed"`
+	Property    string `json:"property"`
+	Seed        uint64 `json:"seed"`
 	From, Count uint64
 	Runs        uint64            `json:"runs"`
 	Nontrivial  uint64            `json:"nontrivial"`
@@ -311,6 +312,8 @@ type Engine struct {
 	Decode func([]byte) (Script, error)
 	// Sched is true for engines that need the instrumented (simrt) build.
 	Sched bool
+	// Concretize turns a strategy-driven scheduled script into one with an explicit schedule (for shrinking).
+	Concretize func(Script, *Outcome) Script
 }
 
 var Engines = map[string]*Engine{}
